@@ -142,6 +142,13 @@ func stackExec(t int, c stackCase) []obj {
 	r := &stackRun{c: c, t: t, links: map[[2]int][]netMsg{}, sentBy: map[int]int{}, parties: map[int]tss.MpcParty{}}
 	r.lines = append(r.lines, obj{"t": t, "e": "reset", "cfg": c.Cfg, "scheme": c.Scheme, "mode": c.Mode, "n": c.N, "th": c.T, "ids": c.IDs, "seed": c.Seed,
 		"policy": c.Policy, "fault": c.Fault, "byz": c.Byz != nil})
+	if c.Byz != nil {
+		r.lines[0]["byznode"] = c.Byz.Node
+		r.lines[0]["strategy"] = c.Byz.Strategy
+	}
+	if c.Cancel > 0 {
+		r.lines[0]["cancel"] = c.Cancel
+	}
 	ids := append([]int(nil), c.IDs...)
 	sort.Ints(ids)
 	membership := map[tss.UniversalID]tss.PartyID{}
